@@ -186,6 +186,17 @@ pub fn check_default(kind: Kind, clock: Clock, spec: &[i128]) -> Result<(), Stri
             let want = if kind == Kind::Date || (kind == Kind::Ora && has_ff) { None } else { with_time(d, tod) };
             (pic, text, want)
         }
+        // 20: a short year written with a minus sign (n, value, shape): denotes no date, under any clock
+        20 => {
+            let n = a(1) as usize;
+            let y = "Y".repeat(n);
+            match a(3) {
+                0 => (y, format!("-{}", a(2)), None),
+                1 => (format!("{y}-MM-DD"), format!("-{}-03-05", a(2)), None),
+                2 => (format!("DD.MM.{y}"), format!("05.03.-{}", a(2)), None),
+                _ => (format!("{y} MON DD HH24:MI:SS"), format!("-{} Mar 05 10:20:30", a(2)), None),
+            }
+        }
         k => return Err(format!("unknown default spec {k}")),
     };
     // time-bearing specs make no sense for the plain Date type: an error is required there
@@ -382,6 +393,10 @@ fn specs_for(r: &Row, idx: u64, seed: u64, thorough: bool) -> Vec<Vec<i128>> {
     for (n, val) in [(1i128, 5i128), (1, 0), (3, 123), (3, 7), (3, 45), (2, 5), (1, sm.below(10) as i128), (3, sm.below(1000) as i128)] {
         v.push(vec![18, n, val, (val + idx as i128) % 2]);
     }
+    // a '-' on a short year
+    for (n, val) in [(1i128, 5i128), (2, 5), (2, 24), (3, 123), (1 + (idx % 3) as i128, sm.below(10) as i128 + 1)] {
+        v.push(vec![20, n, val, ((idx as i128 + n + val) % 4)]);
+    }
     v.push(vec![9, 13, 45]);
     v.push(vec![9, 0, 0]);
     v.push(vec![10]);
@@ -430,7 +445,7 @@ pub fn run(ctx: &Ctx) -> (Stats, Report) {
                         _ => &[Kind::Ora],
                     };
                     // time-bearing specs always go through Timestamp too
-                    let extra = matches!(spec[0], 9 | 10 | 11 | 12 | 14 | 19);
+                    let extra = matches!(spec[0], 9 | 10 | 11 | 12 | 14 | 19) || (spec[0] == 20 && spec[3] == 3);
                     for &kind in kinds.iter().chain(if extra { [Kind::Ts].iter() } else { [].iter() }) {
                         st.evaluations += 1;
                         if special {
@@ -597,7 +612,7 @@ pub fn run(ctx: &Ctx) -> (Stats, Report) {
     let _ = Time::ZERO;
 
     let rep = Report {
-        rule: format!("The injected clock (cargo feature verif-hooks, thread-local) ranges over ALL 3,652,059 possible current local dates x {} time(s) of day (thorough: midnight, 00:00:00.5, 12:34:56.789012, 23:59:59.999999 under every date; quick: one of those five classes incl. 00:00:00.000001 per date, rotating with the date). Under each clock: partial pictures \"\", DD (1, 28..31, month length +-), MM, MM-DD, MON DD, YYYY, YYYY-DD, DDD (incl. 365/366), Y / YY / YYY with value classes (all values for Y/YY in thorough) alone and with month/day, HH24:MI, HH:MI AM with empty text, SS, .FF, DD HH:MI PM, an omission grid (12 time-part pictures in several field orders, meridian before or after the 12-hour field, text ending after every token; also swept exhaustively under 7 clocks), rotated over Date / Timestamp / OracleDate; Date::now, Timestamp::now, OracleDate::now, Timestamp::try_from(Time), OracleDate::try_from(Time); the same constructors with the clock inside a leap second (second 59 + 1,000,000..1,999,999 us: an error or an in-range value within those two seconds). Oracle: model defaults (year and month from the clock, day 1, time 0, 12 for an omitted 12-hour field, short years completed with the leading digits of the clock year) validated by the walked calendar (so DD=31 in a 30-day current month, DDD=366 in a common current year, a completed year 0 are errors). Complete pictures (7 shapes x date pool) must give the identical value under 9 different clocks incl. both range ends. Non-trivial = clock at a month end / year end / century-end year / 29 Feb / year < 1000 / year 9999; distinct by enumeration.", tods.len()),
+        rule: format!("The injected clock (cargo feature verif-hooks, thread-local) ranges over ALL 3,652,059 possible current local dates x {} time(s) of day (thorough: midnight, 00:00:00.5, 12:34:56.789012, 23:59:59.999999 under every date; quick: one of those five classes incl. 00:00:00.000001 per date, rotating with the date). Under each clock: partial pictures \"\", DD (1, 28..31, month length +-), MM, MM-DD, MON DD, YYYY, YYYY-DD, DDD (incl. 365/366), Y / YY / YYY with value classes (all values for Y/YY in thorough) alone and with month/day, with a leading '+' and with a '-' (which denotes no date), HH24:MI, HH:MI AM with empty text, SS, .FF, DD HH:MI PM, an omission grid (12 time-part pictures in several field orders, meridian before or after the 12-hour field, text ending after every token; also swept exhaustively under 7 clocks), rotated over Date / Timestamp / OracleDate; Date::now, Timestamp::now, OracleDate::now, Timestamp::try_from(Time), OracleDate::try_from(Time); the same constructors with the clock inside a leap second (second 59 + 1,000,000..1,999,999 us: an error or an in-range value within those two seconds). Oracle: model defaults (year and month from the clock, day 1, time 0, 12 for an omitted 12-hour field, short years completed with the leading digits of the clock year) validated by the walked calendar (so DD=31 in a 30-day current month, DDD=366 in a common current year, a completed year 0 are errors). Complete pictures (7 shapes x date pool) must give the identical value under 9 different clocks incl. both range ends. Non-trivial = clock at a month end / year end / century-end year / 29 Feb / year < 1000 / year 9999; distinct by enumeration.", tods.len()),
         assumptions: vec!["the hook only replaces the value of chrono::Local::now().naive_local() at the six places the library reads it; with the feature off the code is the original".into()],
         exhaustive: true,
         extra: Default::default(),
